@@ -5,7 +5,7 @@
    only: slot s of row i of the buffer holds cell (i, s + shift(i-1)) of the specification matrix. *)
 From Coq Require Import ZArith Bool Lia List.
 From DV Require Import Prelude Cost Grid Dtw DtwSpec DtwProps Engines CWps CFill CExpand CFillSim CLang CDistTie CDistSpec
-  CTraceSpec CWpsCanon CWpsCanonEu CWpsKernel CWpsValue CWpsSpec CWpsSpecEu CExpW.
+  CTraceSpec Prune PyDistPrune CWpsCanon CWpsCanonEu CWpsKernel CWpsValue CWpsSpec CWpsSpecEu CExpW CWpsPrune CWpsSpecB CWpsValueB.
 From DVGen Require Import Gen_cwps Gen_cfill Gen_cwpsk Gen_cexpw.
 Import ListNotations.
 Open Scope Z_scope.
@@ -177,6 +177,69 @@ Proof.
   intros i j Hi Hj Hb0 Hr0. destruct (HI i j Hi Hj) as [Hv _]. unfold P in Hv. rewrite Hv by (try assumption; lia).
   rewrite wps_matrix_Mfun; [reflexivity|unfold sr; lia|unfold sc; lia].
 Qed.
+(* ------------------------------------------------------------------ under a bound *)
+(* run for its value with p.max_dist = B (max_dist in the internal representation; or the Euclidean upper bound, see
+   c_wps_use_pruning_is_a_bound): the value returned is `v <= B ? v : inf` for the DTW value v of the specification, and
+   every slot of the array holds its cell of the specification matrix or, where that cell is above the bound, some
+   value above the bound (Q); all accesses in range *)
+Hypothesis Hp : 0 <= p.
+Hypothesis Hpsi : (psi_1b usq < length s1)%nat \/ (psi_2e usq < length s2)%nat.
+
+Lemma pen_ok_usq : pen_ok usq.
+Proof. unfold pen_ok, c_to_u, cs_of; cbn. exact Hp. Qed.
+
+Lemma end_valueB_is_dtw_value : end_valueB usq s1 s2 (psi_1e usq) (psi_2e usq) = dtw_value usq s1 s2.
+Proof.
+  rewrite dtw_value_Mfun. unfold end_valueB, end_rows, end_cols, end_cands, sr, sc.
+  rewrite map_app, cmin_list_app, !map_map. reflexivity.
+Qed.
+
+Theorem c_wps_kernel_bounded (B : cost) ce ced1 ced2 wps0 keep idist :
+  let W := cw_width l1 l2 window in
+  Z.of_nat (length wps0) = (l1 + 1) * W -> (idist =? 1) = false ->
+  exists wps',
+    c_dtw_warping_paths_ndim ce (cw_shift l1 l2 window) ced1 ced2 wps0 (concat s1) l1 (concat s2) l2 true keep false (Z.of_nat d)
+      ((l1 + 1) * W) (c_parts_ldiff l1 l2) (c_parts_ldiffr l1 l2 (c_parts_ldiff l1 l2))
+      (c_parts_ldiffc l1 l2 (c_parts_ldiff l1 l2)) (c_parts_window l1 l2 window) W ((l1 + 1) * W)
+      (c_parts_ri1 l1 (c_parts_overlap_left l1 (c_parts_ldiffr l1 l2 (c_parts_ldiff l1 l2)) (c_parts_window l1 l2 window))
+                      (c_parts_overlap_right l1 (c_parts_ldiffr l1 l2 (c_parts_ldiff l1 l2)) (c_parts_window l1 l2 window)))
+      (c_parts_ri2 l1 (c_parts_overlap_left l1 (c_parts_ldiffr l1 l2 (c_parts_ldiff l1 l2)) (c_parts_window l1 l2 window)))
+      (c_parts_ri3 l1 (c_parts_overlap_left l1 (c_parts_ldiffr l1 l2 (c_parts_ldiff l1 l2)) (c_parts_window l1 l2 window))
+                      (c_parts_overlap_right l1 (c_parts_ldiffr l1 l2 (c_parts_ldiff l1 l2)) (c_parts_window l1 l2 window)))
+      (adj_max_step usq) B (Fin (adj_penalty usq)) idist false (Z.of_nat (psi_1b usq)) (Z.of_nat (psi_1e usq))
+      (Z.of_nat (psi_2b usq)) (Z.of_nat (psi_2e usq)) false
+    = (RPlain (sq_repr keep (bounded B (dtw_value usq s1 s2))), wps', true) /\
+    Z.of_nat (length wps') = (l1 + 1) * W /\
+    forall (i : nat) (s : Z), Z.of_nat i <= l1 -> 0 <= s < W ->
+      s + cw_shift l1 l2 window (Z.of_nat i - 1) <= l2 ->
+      (s + cw_shift l1 l2 window (Z.of_nat i - 1) = 0 -> Z.of_nat i <= cw_ri2 l1 l2 window) ->
+      exists v, aget wps' (Z.of_nat i * W + s) = sq_repr keep v /\
+                Q B v (mget (wps_matrix usq s1 s2) i (Z.to_nat (s + cw_shift l1 l2 window (Z.of_nat i - 1)))).
+Proof.
+  intros W HL Hid.
+  destruct (c_wps_kernel_runs_B usq s1 s2 B H1 H2 pen_ok_usq Hpsi window Hwin cell_outside_band (Z.of_nat d) (concat s1) (concat s2)
+              (adj_max_step usq) cell_on_band ltac:(lia) ltac:(lia) ce (cw_shift l1 l2 window) ced1 ced2 wps0 true keep false idist
+              (Z.of_nat (psi_1e usq)) (Z.of_nat (psi_2e usq)) HL Hid)
+    as (wD & E & HG).
+  rewrite Nat2Z.id in HG.
+  destruct (tail_value_B usq s1 s2 B H1 H2 window Hwin cell_outside_band wD HG keep (psi_1e usq) (psi_2e usq)) as (wps' & ET & HLT & HcT).
+  exists wps'. fold W in ET, E, HcT. rewrite E, ET. rewrite end_valueB_is_dtw_value. split; [reflexivity|].
+  destruct HG as (HLen & Hrows & _). fold W in HLen. split; [lia|].
+  intros i s Hi Hs Hcol Hb. pose proof (W_pos l1 l2 window ltac:(lia) ltac:(lia) Hwin) as HW. fold W in HW.
+  exists (aget wD (Z.of_nat i * W + s)). split; [apply HcT; nia|].
+  pose proof (Hrows i ltac:(lia) s Hs Hcol Hb) as HH. unfold rowf in HH. fold W in HH.
+  pose proof (shift_nonneg l1 l2 window ltac:(lia) ltac:(lia) Hwin (Z.of_nat i - 1)) as Hsh.
+  rewrite wps_matrix_Mfun; [exact HH| unfold sr; lia | unfold sc; lia].
+Qed.
+
+(* settings.use_pruning: the kernel takes the squared Euclidean distance (an oracle here; the routine itself is proved
+   under C09) as its bound and then runs as above *)
+Lemma c_wps_use_pruning_is_a_bound ce shiftf ced1 ced2 wps0 f1 zl1 f2 zl2 rdtw keep pneg nd wlen a1 a2 a3 a4 a5 a6 a7 a8 a9 ms md pn idist zp1b zp1e zp2b zp2e :
+  (idist =? 1) = false ->
+  c_dtw_warping_paths_ndim ce shiftf ced1 ced2 wps0 f1 zl1 f2 zl2 rdtw keep pneg nd wlen a1 a2 a3 a4 a5 a6 a7 a8 a9 ms md pn idist false zp1b zp1e zp2b zp2e true
+  = c_dtw_warping_paths_ndim ce shiftf ced1 ced2 wps0 f1 zl1 f2 zl2 rdtw keep pneg nd wlen a1 a2 a3 a4 a5 a6 a7 a8 a9 ms
+      (if nd =? 1 then ced2 else ced1) pn idist false zp1b zp1e zp2b zp2e false.
+Proof. intros Hid. unfold c_dtw_warping_paths_ndim. rewrite Hid. reflexivity. Qed.
 End Final.
 
 
